@@ -239,6 +239,12 @@ func (group *AbacoGroup) fillMissingPackets() (bytesAdded, packetsAdded, framesA
 	snexpect := group.lastSN + 1
 	for _, p := range group.queue {
 		sn := p.SequenceNumber()
+		if sn < snexpect {
+			// This packet was already in the queue when group.lastSN was last updated (it is left over
+			// from an earlier call because another group lagged): it must not advance snexpect again.
+			newq = append(newq, p)
+			continue
+		}
 		for snexpect < sn {
 			pfake := p.MakePretendPacket(snexpect, group.nchan)
 			newq = append(newq, pfake)
